@@ -123,6 +123,15 @@ def h_buf_new(w, st, rec):
     elif rec.get("as") == "1d" and isinstance(v, np.ndarray) and v.size == 1:
         v = v.reshape(1).copy()
         w.probes["buf.lower_rank"] += 1
+    elif rec.get("as") == "roview" and isinstance(v, np.ndarray) and v.size:
+        # a read-only view of storage the caller can still write to (np.broadcast_to, np.diagonal, ... give such)
+        st.bufs[rec["id"] + ".base"] = v
+        v = v.view()
+        v.flags.writeable = False
+        w.probes["buf.readonly_view"] += 1
+    elif rec.get("as") == "col" and isinstance(v, np.ndarray) and v.ndim == 1 and v.size:
+        v = v.reshape(-1, 1).copy()          # a p x 1 column instead of a vector
+        w.probes["buf.column_vector"] += 1
     elif rec.get("as") == "view" and isinstance(v, np.ndarray) and v.ndim in (1, 2) and v.size:
         # a non-contiguous view into a larger array the caller owns
         base = np.zeros(tuple(2 * d for d in v.shape), dtype=v.dtype)
@@ -138,6 +147,11 @@ def h_buf_new(w, st, rec):
 def model_ctor(w, st, mtype, params):
     """params: dict name -> python value (caller-owned).  Returns callable doing the construction."""
     S = w.sempler
+    if mtype == "lganm" and params.get("bykw"):
+        return lambda: S.LGANM(W=params["W"], means=params["means"], variances=params["variances"],
+                               random_state=G.seed_object(w, params.get("seed")))
+    if mtype == "anm" and params.get("bykw"):
+        return lambda: S.ANM(A=params["A"], assignments=params["assign"], noise_distributions=params["noise"])
     if mtype == "lganm":
         return lambda: S.LGANM(params["W"], params["means"], params["variances"], random_state=G.seed_object(w, params.get("seed")))
     if mtype == "nd":
@@ -168,6 +182,8 @@ def spec_params(w, st, rec):
         spec[k] = enc(v)
     if mtype == "lganm":
         params["seed"] = spec["seed"] = rec.get("seed")
+    if rec.get("bykw"):
+        params["bykw"] = True
     if mtype == "nd" and rec.get("check_valid"):
         params["check_valid"] = spec["check_valid"] = rec["check_valid"]
         w.probes["nd.check_valid"] += 1
@@ -289,12 +305,18 @@ def call_method(w, st, obj, mtype, method, a, seed, argvals=None):
         return (lambda: obj.sample(a["n"], random_state=seed)), args
     if method == "marginal":
         X = build_arg(w, st, a["X"])
+        if a.get("bykw"):
+            return (lambda: obj.marginal(X=X)), [X]
         return (lambda: obj.marginal(X)), [X]
     if method == "conditional":
         Y, X, x = (build_arg(w, st, a[k]) for k in ("Y", "X", "x"))
+        if a.get("bykw"):
+            return (lambda: obj.conditional(Y=Y, X=X, x=x)), [Y, X, x]
         return (lambda: obj.conditional(Y, X, x)), [Y, X, x]
     if method in ("regress", "mse"):
         Xs = build_arg(w, st, a["Xs"])
+        if a.get("bykw"):
+            return (lambda: getattr(obj, method)(y=a["y"], Xs=Xs)), [Xs]
         return (lambda: getattr(obj, method)(a["y"], Xs)), [Xs]
     if method == "equal":
         other = build_arg(w, st, a["dist"])
@@ -307,7 +329,7 @@ def call_method(w, st, obj, mtype, method, a, seed, argvals=None):
 
 def canonical_args(a):
     """Equal intervention dicts are the same argument whatever their insertion order or container class."""
-    a = {k: v for k, v in a.items() if k not in ("defaultdict",)}
+    a = {k: v for k, v in a.items() if k not in ("defaultdict", "bykw")}
     for kind in ("do", "shift", "noise"):
         if isinstance(a.get(kind), list):
             a[kind] = sorted(a[kind], key=lambda tv: tv[0])
@@ -468,6 +490,18 @@ def h_u_call(w, st, rec):
         kw["dtype"] = np.dtype(kw["dtype"])
     owned = args + list(kw.values())
     pre = [digest(x) for x in owned]
+    if rec.get("bykw"):
+        # the same call with every argument passed by keyword
+        import inspect
+        try:
+            names = [n for n, prm in inspect.signature(f).parameters.items()
+                     if prm.kind in (prm.POSITIONAL_OR_KEYWORD, prm.KEYWORD_ONLY)][:len(args)]
+        except (TypeError, ValueError):
+            names = []
+        if len(names) == len(args) and not set(names) & set(kw):
+            kw = dict(zip(names, args), **kw)
+            args = []
+            w.probes["call.by_keyword"] += 1
     out = w.call(f, *args, arm=rec.get("arm"), **kw)
     post = [digest(x) for x in owned]
     w.apis[site] += 1
@@ -598,7 +632,10 @@ def h_scribble(w, st, rec):
                     done = True
                     w.probes["scribble.in:" + tgt.split(".")[1] + "_list"] += 1
         elif isinstance(b, np.ndarray):
-            done = scribble_array(b, how)
+            if not b.flags.writeable and (tgt + ".base") in st.bufs:
+                done = scribble_array(st.bufs[tgt + ".base"], how)      # the storage behind a read-only view
+            else:
+                done = scribble_array(b, how)
         elif isinstance(b, list):
             done = scribble_list(b, how)
         if done:
@@ -879,7 +916,7 @@ def new_buf(g, gs, ops, c, value, allow_list=True):
     gs.nbuf += 1
     bid = "a%d" % gs.nbuf
     r = g.random()
-    as_ = "list" if allow_list and r < 0.2 else ("view" if r > 0.85 else "nd")
+    as_ = "list" if allow_list and r < 0.2 else ("view" if r > 0.88 else "roview" if r > 0.8 else "nd")
     ops.append({"c": c, "op": "buf.new", "id": bid, "value": enc(value), "as": as_})
     return bid, as_
 
@@ -940,6 +977,8 @@ def gen_model(g, gs, cfg, ops, c, invalid=False):
             rec["means"] = enc((lo, round(lo + G.r2(g, 0, 2), 2)))
         else:
             rec["means"] = arg(cast(G.rand_vec(g, p, -2, 2), g.choice(["<f8", "<f8", "<f4"]), g), must_nd=True)
+            if g.random() < 0.06 and is_ref(rec["means"]) and ops[-1].get("op") == "buf.new" and ops[-1].get("as") == "nd":
+                ops[-1]["as"] = "col"
         if g.random() < 0.3:
             lo = G.r2(g, 0.2, 1)
             rec["variances"] = enc((lo, round(lo + G.r2(g, 0, 2), 2)))
@@ -949,6 +988,9 @@ def gen_model(g, gs, cfg, ops, c, invalid=False):
     elif mtype == "nd":
         mean = G.rand_vec(g, p, -2, 2)
         cov = G.rand_cov(g, p, singular=g.random() < 0.25)
+        if p >= 2 and g.random() < 0.08:
+            cov = cov.copy()                 # materially non-symmetric: the constructor accepts it
+            cov[0, 1] += G.r2(g, 0.3, 1.0)
         if invalid:
             mean = G.rand_vec(g, p + 1, -2, 2)
         if p == 1 and not invalid and g.random() < 0.5:
@@ -979,6 +1021,8 @@ def gen_model(g, gs, cfg, ops, c, invalid=False):
                         for _ in range(p)]
     if invalid:
         rec["invalid"] = True
+    if mtype in ("lganm", "anm") and g.random() < 0.1:
+        rec["bykw"] = True
     ops.append(rec)
     if not invalid:
         gs.models[mid] = {"type": mtype, "p": len(W) if W is not None else p, "bufs": bufs, "derived": False}
@@ -1110,6 +1154,8 @@ def gen_m_call(g, gs, cfg, mid, force_method=None):
                     rec["args"]["atol"] = 0.5
         else:
             rec["args"] = {}
+    if mtype == "nd" and rec["method"] in ("marginal", "conditional", "regress", "mse") and g.random() < 0.1:
+        rec["args"]["bykw"] = True
     # faults inside the operation
     if "seam.raise" in cfg["faults"] and g.random() < cfg["fault_rate"] and not rec.get("invalid"):
         seam = {"sample": g.choice(["np.linalg.inv", "np.random.multivariate_normal"]) if mtype == "lganm"
@@ -1195,6 +1241,8 @@ def generate(run_seed, deep=False):
         if kind == "u.call":
             rec = U.gen_utils_call(g, min(cfg["pmax"], 10))
             rec["c"] = c
+            if g.random() < 0.15:
+                rec["bykw"] = True
             if rec["fn"] in ("sampling_matrix",) and g.random() < max(cfg["sweep_rate"], 0.2):
                 rec["sweep"] = True
             if rec["fn"] in ("gen.dag_avg_deg", "gen.dag_full") and not dec(rec["kw"].get("return_ordering", False)):
@@ -1418,6 +1466,7 @@ REQUIRED_PROBES = ["iv.do.non_source", "iv.shift.non_source", "iv.noise.non_sour
                    "op_after_failed_op_same_model", "natural_LinAlgError", "history.first_vs_later",
                    "history.aged_vs_twin", "sweep.fault_positions", "sweep.utils", "obs_law.checked", "obs_law.checked:anm", "obs_law.checked:nd", "buf.view", "gc.model_dropped",
                    "gc.model_id_reused", "two_models_from_one_caller_array", "model_from_generator_output", "buf.lower_rank",
+                   "buf.readonly_view", "buf.column_vector", "call.by_keyword",
                    "nd.check_valid"]
 
 
